@@ -780,7 +780,7 @@ def one_case(ctx, i, pinned=None):
             continue
         viol(f"structure:{rule}", f"wild output: {detail}")
     ncheck[0] += 1
-    strip = dict(case["opts"]).get("strip") if any(o[0] == "strip" for o in case["opts"]) else None
+    strip = M.opt.get("strip")
     if strip == "-s":
         if W["has_symtab"] and not Lo["has_symtab"]:
             viol("strip-all:symtab-present", "-s given but wild's output has a .symtab (GNU ld's has none)")
@@ -800,7 +800,7 @@ def one_case(ctx, i, pinned=None):
                 lay_by_unit[(base, os.path.basename(f["member"]))] = f
             else:
                 lay_by_unit[(base, None)] = f
-    retain = dict((o[0], o[1]) for o in case["opts"]).get("retain")
+    retain = M.opt.get("retain")
     tls_seg = W["elf"].segs(E.PT_TLS)
     # ---- per-name checks ----------------------------------------------------------------------
     for n in case["order"]:
